@@ -21,6 +21,21 @@ def sh(cmd, **kw):
     return subprocess.run(cmd, shell=True, stdout=subprocess.PIPE, stderr=subprocess.STDOUT, universal_newlines=True, **kw)
 
 
+
+def _save_evidence():
+    """the checks rewrite evidence/<id>.json on every run: runs on deliberately broken trees must not leave their evidence behind"""
+    import shutil, tempfile
+    d = tempfile.mkdtemp(prefix='xv-evidence.', dir='/var/tmp')
+    shutil.copytree('/verif/evidence', d + '/evidence')
+    return d
+
+
+def _restore_evidence(d):
+    import shutil
+    shutil.rmtree('/verif/evidence')
+    shutil.copytree(d + '/evidence', '/verif/evidence')
+    shutil.rmtree(d)
+
 def main():
     ap = argparse.ArgumentParser()
     ap.add_argument('--only')
@@ -70,4 +85,9 @@ def main():
 
 
 if __name__ == '__main__':
-    sys.exit(main())
+    _d = _save_evidence()
+    try:
+        _rc = main()
+    finally:
+        _restore_evidence(_d)
+    sys.exit(_rc)
